@@ -304,15 +304,20 @@ impl Dumper {
         }
         // layout + drop glue
         let (layout, drop) = {
-            let l = t.layout().ok().map(|l| serde_json::to_value(l.shape()).unwrap());
+            let l = t.layout().ok().and_then(|l| serde_json::to_string(&l.shape()).ok());
             let is_sized_like = !matches!(t.kind(), TyKind::RigidTy(RigidTy::FnDef(..)) | TyKind::RigidTy(RigidTy::Never));
             let d = if is_sized_like && matches!(t.kind(), TyKind::RigidTy(_)) { self.drop_glue(t) } else { None };
             (l, d)
         };
         let o = rec.as_object_mut().unwrap();
-        o.insert("layout".into(), layout.unwrap_or(Value::Null));
         o.insert("drop".into(), json!(drop));
-        self.emit(rec);
+        // layout may contain u128 values serde_json::Value cannot hold: splice the raw JSON text
+        let mut line = rec.to_string();
+        line.pop();
+        line.push_str(",\"layout\":");
+        line.push_str(layout.as_deref().unwrap_or("null"));
+        line.push('}');
+        writeln!(self.out, "{}", line).unwrap();
     }
 
     fn dump_alloc(&mut self, aid: AllocId) {
@@ -348,7 +353,20 @@ impl Dumper {
     }
 
     fn is_stopped(&self, name: &str) -> bool {
-        self.stop.iter().any(|p| name.contains(p.as_str()))
+        // a pattern matches at a path start: beginning of the name or after a non-path character
+        self.stop.iter().any(|p| {
+            let mut from = 0;
+            while let Some(i) = name[from..].find(p.as_str()) {
+                let at = from + i;
+                let ok = at == 0 || {
+                    let c = name.as_bytes()[at - 1] as char;
+                    !(c.is_alphanumeric() || c == '_' || c == ':')
+                };
+                if ok { return true; }
+                from = at + 1;
+            }
+            false
+        })
     }
     /// stop decision on the *definition path* (no generic arguments); drop glue is
     /// decided on the dropped type's own definition path
